@@ -1,10 +1,43 @@
-import RtenVerif.Model.ControlFlow
+import RtenVerif.Lemmas.ControlFlowEnv
 
 /-!
 # C24 — control-flow subgraphs behave like the equivalent inlined graph
-(work in progress: witnesses first)
+
+Model: `RtenVerif/Model/ControlFlow.lean` (`evalG` naive semantics, `runPlan` operational semantics).
+
+## T1 (operational = naive)
+FULL STATEMENT (for every well-formed program — globally unique names, operators in a valid order —
+every fuel, every owned/borrowed split of the arguments):
+    `runPlan S fuel g (flag args) [] = evalG S true fuel [] g args`.
+* It is FALSE as stated: `c24_loop_zero_iter_scan_false` (zero-iteration loop with scan outputs).
+* Proved parts (this file): the `Loop` fold is *shared* by both semantics and depends on the body
+  runner only pointwise (`c24_loop_congr`), its unrolling law (`c24_loop_unroll`) and zero-iteration
+  case (`c24_loop_zero_iterations`); the environment handed to a subgraph resolves every node of
+  the parent graph to the value the parent holds — whether it stayed in `temp_values` (by
+  reference) or was just moved by value — and every other name to what the parent's own
+  environment gives (`c24_child_sees_parent_locals`, `c24_child_sees_outer`,
+  `c24_extract_keeps_other_captures`).
+* NOT proved: the global simulation that glues these per-step facts over a whole nested run (it is
+  tied by the correspondence harness and by the `decide`d scenario programs below).  One hole the
+  simulation would have to close is real at component level: `c24_getInput_misses_capture_node`.
+
+## T2 (ownership safety) — proved
+`RcInv` holds initially and is preserved by every step of every (nested) `run_plan`
+(`c24_rc_invariant_init/_step/_steps`); under it every value moved by value into a subgraph or taken
+for in-place execution has no remaining use (`c24_byvalue_capture_has_no_later_use`,
+`c24_inplace_take_has_no_later_use`); a value with `rc ≠ 1` is never moved
+(`c24_shared_value_never_moved`); `take_input` only touches the innermost by-value map
+(`c24_byref_never_taken`, `c24_can_take_only_by_value`).  `Loop` hands the *same* environment value
+to every iteration (model of `captures.clone()`), so a take in iteration k cannot be seen by k+1
+(`c24_loop_iterations_independent` is an instance checked by `decide`).
+
+## T3 (optimizer guard) — proved: `c24_fusion_keeps_captured`.
 -/
 namespace RtenVerif.ControlFlow
+
+variable {P V : Type}
+
+/-! ## T1 -/
 
 /-- Program `s5` of the harness: `5 = 1*2; (6, 7) = Loop(trip = 3){ carried 5; scan neg(carried) }`. -/
 def progZeroScan : Graph Prim Tens :=
@@ -19,20 +52,301 @@ def progZeroScan : Graph Prim Tens :=
 def argsZero : List Tens := [⟨[2], [1, 2]⟩, ⟨[2], [3, 4]⟩, ⟨[], [0]⟩]
 def argsTwo : List Tens := [⟨[2], [1, 2]⟩, ⟨[2], [3, 4]⟩, ⟨[], [2]⟩]
 
-/-- FULL T1 for `Loop` (operational = ONNX fold semantics) is FALSE of the code: a loop that runs
-zero times and has a scan output returns too few outputs (`OutputMismatch`) where ONNX prescribes an
-empty scan output. Pinned at operator level by `test_loop_condition_initially_false`. -/
+/-- FULL T1 is FALSE of the code: a loop that runs zero times and has a scan output returns too few
+outputs (`OutputMismatch`) where ONNX prescribes an empty scan output. Pinned at operator level by
+`test_loop_condition_initially_false`. -/
 theorem c24_loop_zero_iter_scan_false :
     runTop intSem 3 progZeroScan (argsZero.map (fun v => (false, v))) = .error .outputMismatch ∧
     evalG intSem true 3 [] progZeroScan argsZero = .ok [⟨[2], [3, 8]⟩, ⟨[0], []⟩] := by
   decide
 
-/-- …while with two iterations both agree (sanity / non-vacuity of the model). -/
+/-- …with two iterations both semantics agree (test; non-vacuity of the model). -/
 example :
     runTop intSem 3 progZeroScan (argsTwo.map (fun v => (true, v))) =
       .ok [⟨[2], [9, 24]⟩, ⟨[2, 2], [-3, -8, -6, -16]⟩] ∧
     evalG intSem true 3 [] progZeroScan argsTwo =
       .ok [⟨[2], [9, 24]⟩, ⟨[2, 2], [-3, -8, -6, -16]⟩] := by
   decide
+
+/-- The `Loop` fold depends on the body runner only through its results: if the operational body
+run and the naive body evaluation agree on every argument list, the whole loops agree. -/
+theorem c24_loop_congr (S : Sem P V) (onnx : Bool) (run₁ run₂ : Nat → List V → Except Err (List V))
+    (h : ∀ i args, run₁ i args = run₂ i args) (bi bo : Nat) (tv cv : Option V) (cs : List V) :
+    loopCore S onnx run₁ bi bo tv cv cs = loopCore S onnx run₂ bi bo tv cv cs := by
+  have : run₁ = run₂ := by funext i args; exact h i args
+  rw [this]
+
+/-- Unrolling law of the fold (ONNX `Loop`): one more iteration = run the body on
+`(i, cond, carried…)`, read the new condition, keep the first `k` results as carried values and
+append the rest to the scan lists. -/
+theorem c24_loop_unroll (S : Sem P V) (run : Nat → List V → Except Err (List V)) (k rem i : Nat)
+    (c c' : Int) (cs rest : List V) (sc : List (List V)) (co : V) (hc : c ≠ 0)
+    (hrun : run i (S.ofInt i :: S.ofInt c :: cs) = .ok (co :: rest)) (hco : S.item co = some c') :
+    loopIter S run k (rem + 1) i c cs sc =
+      loopIter S run k rem (i + 1) c' (rest.take k) (pushScans sc (rest.drop k)) := by
+  simp [loopIter, hc, hrun, hco]
+
+/-- The loop stops when the condition is false or the trip count is exhausted. -/
+theorem c24_loop_stop (S : Sem P V) (run : Nat → List V → Except Err (List V)) (k rem i : Nat)
+    (c : Int) (cs : List V) (sc : List (List V)) (h : rem = 0 ∨ c = 0) :
+    loopIter S run k rem i c cs sc = .ok (cs, sc) := by
+  cases rem with
+  | zero => rfl
+  | succ r =>
+    rcases h with h | h
+    · omega
+    · simp [loopIter, h]
+
+/-- Zero iterations (trip count ≤ 0 or condition false at start), no scan outputs: the initial
+carried values are returned unchanged, in both readings. -/
+theorem c24_loop_zero_iterations (S : Sem P V) (onnx : Bool)
+    (run : Nat → List V → Except Err (List V)) (tv cv : Option V) (cs : List V) (m c0 : Int)
+    (hm : tripOf S tv = some m) (hc : condOf S cv = some c0)
+    (hz : m ≤ 0 ∨ c0 = 0) :
+    loopCore S onnx run (2 + cs.length) (1 + cs.length) tv cv cs = .ok cs := by
+  have hstop : loopIter S run cs.length m.toNat 0 c0 cs (replicateNil (1 + cs.length - 1 - cs.length))
+      = .ok (cs, replicateNil (1 + cs.length - 1 - cs.length)) := by
+    apply c24_loop_stop
+    rcases hz with hz | hz
+    · left; omega
+    · right; exact hz
+  have h0 : 1 + cs.length - 1 - cs.length = 0 := by omega
+  rw [h0] at hstop
+  have hnil : (replicateNil 0 : List (List V)) = [] := rfl
+  rw [hnil] at hstop
+  simp [loopCore, hm, hc, hnil, hstop, finishScans]
+
+example : loopCore intSem true (fun _ _ => .error .opError) 3 2 (some ⟨[], [0]⟩) none [⟨[1], [7]⟩]
+    = .ok [⟨[1], [7]⟩] :=
+  c24_loop_zero_iterations intSem true _ (some ⟨[], [0]⟩) none [⟨[1], [7]⟩] 0 1 rfl rfl (Or.inl (by decide))
+
+/-- What a subgraph reads for a node of its parent graph `g`, through the environment `run_plan`
+builds *after* by-value extraction: exactly the parent's owned value if it has one (whether it was
+left in `temp_values` or moved by value), else the parent's constant / borrowed input. -/
+theorem c24_child_sees_parent_locals (g : Graph P V) (views : Env V) (st : St V) (ins ds : List Nat)
+    (n : Nat) (hn : n ∈ g.defs) :
+    let ex := extractByVal g.caps ins st ds
+    getInput ({ locals := g.defs, caps := g.caps, views := views, tempRef := ex.1.temp,
+                byVal := ex.2 } :: ex.1.env) n =
+      match look st.temp n with
+      | some v => some v
+      | none => look views n := by
+  intro ex
+  have hc := caps_not_def g n hn
+  rw [getInput_frame_local g views ex.1.temp ex.2 ex.1.env n hn]
+  cases h : look st.temp n with
+  | some v =>
+    rcases extractByVal_visible g.caps ins ds st n v h hc with ⟨h1, _⟩ | ⟨h1, h2⟩
+    · simp [ex, h1]
+    · simp [ex, h1, h2]
+  | none =>
+    have h1 := extractByVal_temp_none g.caps ins ds st n h
+    have h2 := extractByVal_not_key g.caps ins ds st n h hc
+    simp [ex, h1, h2]
+
+/-- Instance: the owned value `1` (count 1) is moved by value and still read by the child. -/
+example :
+    let g : Graph Prim Tens := .mk [1] [] [.prim .neg [1] 2] [2]
+    let st : St Tens := ⟨[(1, ⟨[], [4]⟩)], fun _ => 1, []⟩
+    let ex := extractByVal g.caps [] st [1]
+    ex.2 = [(1, ⟨[], [4]⟩)] ∧ look ex.1.temp 1 = none ∧
+    getInput ({ locals := g.defs, caps := g.caps, views := [], tempRef := ex.1.temp,
+                byVal := ex.2 } :: ex.1.env) 1 = some ⟨[], [4]⟩ := by
+  decide
+
+/-- For a name the parent graph does not define, the lookup continues in the parent's own
+environment. -/
+theorem c24_child_sees_outer (g : Graph P V) (views tempRef byVal : Env V) (env : List (Frame V))
+    (n : Nat) (hn : n ∉ g.defs) :
+    getInput ({ locals := g.defs, caps := g.caps, views := views, tempRef := tempRef,
+                byVal := byVal } :: env) n = getInput env n :=
+  getInput_frame_outer g views tempRef byVal env n hn
+
+/-- By-value extraction leaves the parent's own environment unchanged for every name that is not
+one of the operator's dependencies. -/
+theorem c24_extract_keeps_other_captures (gc ins : List Nat) : ∀ (ds : List Nat) (st : St V) (n : Nat),
+    n ∉ ds → getInput (extractByVal gc ins st ds).1.env n = getInput st.env n
+  | [], _, _, _ => rfl
+  | m :: ms, st, n, hn => by
+    have hnm : n ≠ m := fun h => hn (h ▸ List.mem_cons_self)
+    have hns : n ∉ ms := fun h => hn (List.mem_cons_of_mem _ h)
+    have htake : getInput (takeValue gc st m).2.env n = getInput st.env n := by
+      unfold takeValue
+      split
+      · split
+        · rfl
+        · split
+          · exact getInput_takeInput_ne st.env m n hnm
+          · rfl
+      · rfl
+    unfold extractByVal
+    split
+    · exact c24_extract_keeps_other_captures gc ins ms st n hns
+    · split
+      · rename_i v st' htv
+        rw [htv] at htake
+        simp only []
+        rw [c24_extract_keeps_other_captures gc ins ms st' n hns, htake]
+      · rename_i st' htv
+        rw [htv] at htake
+        rw [c24_extract_keeps_other_captures gc ins ms st' n hns, htake]
+
+/-- Component-level hole: `CaptureEnv::get_input` skips the local graph for a *capture node*, but
+`run_plan` stores a by-value capture taken from the enclosing environment under exactly that node.
+Such a value can be taken in place (`can_take_input`) but not read.  On graphs produced by the
+loaders this state is unreachable: a graph that passes one of its own capture nodes on to a nested
+operator mentions the name twice in `capture_names` (once itself, once through the nested
+operator), so its parent's reference count is ≥ 2 and the value is never moved by value into the
+graph's environment in the first place (harness scenarios s1/s2 exercise exactly this). -/
+theorem c24_getInput_misses_capture_node :
+    let env : List (Frame Tens) :=
+      [ { locals := [7], caps := [5], views := [], tempRef := [], byVal := [(5, ⟨[], [42]⟩)] },
+        { locals := [5], caps := [], views := [], tempRef := [], byVal := [] } ]
+    canTake env 5 = true ∧ getInput env 5 = none := by
+  decide
+
+/-! ### `decide`d instances of the full T1 statement (tests, not proofs) -/
+
+/-- Harness scenario s3: a by-value capture (`5`) used by an in-place capable operator in every
+iteration of a loop. -/
+def progS3 : Graph Prim Tens :=
+  .mk [1, 2, 3] []
+    [ .prim .mul [1, 2] 5,
+      .loop (some 3) none [1]
+        (.mk [60, 61, 62] []
+          [.prim .neg [5] 63, .prim .add [63, 62] 64, .prim .ident [61] 65] [65, 64, 63])
+        [6, 7] ]
+    [6, 7]
+
+def argsS3 : List Tens := [⟨[2], [1, 2]⟩, ⟨[2], [3, 4]⟩, ⟨[], [3]⟩]
+
+/-- The value `5` is moved by value into the loop's environment (owned inputs) and negated in place
+in iteration 0; iterations 1 and 2 still see it: results equal the naive fold. -/
+theorem c24_loop_iterations_independent :
+    runTop intSem 3 progS3 (argsS3.map (fun v => (true, v))) = evalG intSem true 3 [] progS3 argsS3 ∧
+    runTop intSem 3 progS3 (argsS3.map (fun v => (false, v))) = evalG intSem true 3 [] progS3 argsS3 ∧
+    evalG intSem true 3 [] progS3 argsS3 =
+      .ok [⟨[2], [-8, -22]⟩, ⟨[3, 2], [-3, -8, -3, -8, -3, -8]⟩] := by
+  decide
+
+/-- Harness scenario s1 (capture of a capture through If → Loop). -/
+def progS1 : Graph Prim Tens :=
+  .mk [1, 2, 3] []
+    [ .prim .mul [1, 2] 5,
+      .ifOp 3
+        (.mk [] [(10, ⟨[], [2]⟩)]
+          [ .prim .add [5, 1] 11,
+            .loop (some 10) none [11]
+              (.mk [20, 21, 22] [] [.prim .ident [21] 23, .prim .sub [22, 5] 24] [23, 24]) [12] ]
+          [12])
+        (.mk [] [] [.prim .ident [1] 30] [30])
+        [6] ]
+    [6]
+
+example :
+    runTop intSem 4 progS1 ([⟨[2], [1, 2]⟩, ⟨[2], [3, 4]⟩, ⟨[], [1]⟩].map (fun v => (true, v))) =
+      evalG intSem true 4 [] progS1 [⟨[2], [1, 2]⟩, ⟨[2], [3, 4]⟩, ⟨[], [1]⟩] ∧
+    evalG intSem true 4 [] progS1 [⟨[2], [1, 2]⟩, ⟨[2], [3, 4]⟩, ⟨[], [1]⟩] = .ok [⟨[2], [-2, -6]⟩] := by
+  decide
+
+/-! ## T2 -/
+
+theorem c24_rc_invariant_init (g : Graph P V) (temp : Env V) (env : List (Frame V)) :
+    RcInv g g.ops { temp := temp, rc := rcInit g, env := env } := rcInv_init g temp env
+
+theorem c24_rc_invariant_step (S : Sem P V) (rec : Runner P V) (g : Graph P V) (views : Env V)
+    (st st' : St V) (op : Op P V) (rest : List (Op P V))
+    (hinv : RcInv g (op :: rest) st) (h : stepOp S rec g views st op = .ok st') :
+    RcInv g rest st' := rcInv_step S rec g views st st' op rest hinv h
+
+theorem c24_rc_invariant_steps (S : Sem P V) (rec : Runner P V) (g : Graph P V) (views : Env V)
+    (ops rest : List (Op P V)) (st st' : St V) (hinv : RcInv g (ops ++ rest) st)
+    (h : stepOps S rec g views st ops = .ok st') : RcInv g rest st' :=
+  rcInv_steps S rec g views ops rest st st' hinv h
+
+/-- A parent value moved by value into a subgraph's environment is a dependency of that operator
+only: no later step (input or nested capture), no requested output, and not a second occurrence in
+the same operator (e.g. both branches of an `If`) needs it. -/
+theorem c24_byvalue_capture_has_no_later_use (g : Graph P V) (op : Op P V) (rest : List (Op P V))
+    (st : St V) (hinv : RcInv g (op :: rest) st) (p : Nat × V)
+    (hp : p ∈ (extractByVal g.caps op.directInputs st (deps g op)).2)
+    (hval : isValueNode g p.1 = true) :
+    (deps g op).count p.1 = 1 ∧ p.1 ∉ rest.flatMap (deps g) ∧ p.1 ∉ g.outputs ∧
+      p.1 ∉ op.directInputs := by
+  obtain ⟨hmem, hnin, hrc⟩ := extractByVal_keys g.caps op.directInputs (deps g op) st p hp
+  obtain ⟨h1, h2, h3⟩ := rc_one_no_remaining_use g op rest st hinv p.1 hval hmem hrc
+  exact ⟨h1, h2, h3, by simpa using hnin⟩
+
+/-- The same for values taken for in-place execution of a primitive operator (inside a subgraph
+these may come from the by-value captures). -/
+theorem c24_inplace_take_has_no_later_use (g : Graph P V) (k : P) (ins : List Nat) (out : Nat)
+    (rest : List (Op P V)) (st st' : St V) (hinv : RcInv g (.prim k ins out :: rest) st)
+    (cs : List (Nat × Nat)) (vs : List (Nat × V)) (htk : takeAll g.caps st cs = .ok (st', vs))
+    (c : Nat × Nat) (hc : c ∈ cs) (hin : c.2 ∈ ins) (hval : isValueNode g c.2 = true) :
+    ins.count c.2 = 1 ∧ c.2 ∉ rest.flatMap (deps g) ∧ c.2 ∉ g.outputs := by
+  have hrc := takeAll_rc_one g.caps cs st st' vs htk c hc
+  have := rc_one_no_remaining_use g (.prim k ins out) rest st hinv c.2 hval
+    (by rw [deps_prim]; exact hin) hrc
+  rw [deps_prim] at this
+  exact this
+
+/-- Non-vacuity: in scenario s3 the refcount invariant holds initially and `5` (count 1: only the
+loop captures it) is extracted by value at the loop step. -/
+example :
+    (extractByVal (progS3.caps) [3, 1]
+      { temp := [(5, (⟨[2], [3, 8]⟩ : Tens))], rc := fun n => if n = 5 then 1 else 2, env := [] }
+      [3, 1, 5]).2 = [(5, ⟨[2], [3, 8]⟩)] := by
+  decide
+
+/-- `rc ≠ 1` (another step, a requested output or a second capture still needs the value): the
+value is not moved — it can only be captured by reference. -/
+theorem c24_shared_value_never_moved (gc : List Nat) (st : St V) (n : Nat) (h : st.rc n ≠ 1) :
+    takeValue gc st n = (none, st) := takeValue_none_of_rc_ne_one gc st n h
+
+/-- `take_input` never changes by-reference captures, constants, inputs or any outer
+environment. -/
+theorem c24_byref_never_taken (env : List (Frame V)) (n : Nat) :
+    ((takeInput env n).2).map (fun f => (f.locals, f.caps, f.views, f.tempRef)) =
+      env.map (fun f => (f.locals, f.caps, f.views, f.tempRef)) ∧
+    (takeInput env n).2.tail = env.tail := takeInput_frames env n
+
+theorem c24_can_take_only_by_value (env : List (Frame V)) (n : Nat) :
+    canTake env n = true ↔
+      ∃ f ps, env = f :: ps ∧ (f.locals.contains n || f.caps.contains n) = true ∧
+        (look f.byVal n).isSome = true := canTake_iff env n
+
+/-! ## T3 -/
+
+/-- If the guard lets a fusion through, every captured value that had a producer still has one
+afterwards (the fused operator). -/
+theorem c24_fusion_keeps_captured (ops : List (Nat × List Nat)) (unfused : List Nat) (newId : Nat)
+    (preserved captured : List Nat)
+    (hguard : guardFind captured (unfusedOutputs ops unfused) preserved = none)
+    (v : Nat) (hcap : v ∈ captured) (hprod : producedBy ops v) :
+    producedBy (applyFusion ops unfused newId preserved) v := by
+  obtain ⟨o, ho, hv⟩ := hprod
+  by_cases hu : unfused.contains o.1 = true
+  · have hout : v ∈ unfusedOutputs ops unfused := by
+      unfold unfusedOutputs
+      exact List.mem_flatMap.mpr ⟨o, List.mem_filter.mpr ⟨ho, hu⟩, hv⟩
+    have := guardFind_none captured _ preserved hguard v hout hcap
+    exact ⟨(newId, preserved), by simp [applyFusion], this⟩
+  · refine ⟨o, ?_, hv⟩
+    simp only [applyFusion, List.mem_append, List.mem_filter]
+    left
+    exact ⟨ho, by simpa using hu⟩
+
+/-- Without the guard the statement fails: an `Identity` fusion (`preserved = []`) of the operator
+producing a captured value leaves it without a producer. -/
+theorem c24_fusion_without_guard_false :
+    guardFind [5] (unfusedOutputs [(0, [5])] [0]) [] = some 5 ∧
+    ¬ producedBy (applyFusion [(0, [5])] [0] 9 []) 5 := by
+  refine ⟨by decide, ?_⟩
+  rintro ⟨o, ho, hv⟩
+  simp [applyFusion] at ho
+  subst ho
+  simp at hv
+
+example : guardFind [5] (unfusedOutputs [(0, [4]), (1, [5])] [0, 1]) [5] = none := by decide
 
 end RtenVerif.ControlFlow
